@@ -330,7 +330,8 @@ impl fmt::Display for BoardBuilder {
 
         write!(f, " ")?;
         if let Some(sq) = self.get_en_passant() {
-            write!(f, "{}", sq)?;
+            // FEN records the square the pawn passed over (rank 3 or 6), not the pawn's square
+            write!(f, "{}", sq.uforward(self.side_to_move))?;
         } else {
             write!(f, "-")?;
         }
